@@ -1,0 +1,47 @@
+//go:build verif
+
+package balancer
+
+// Contracts checked by /verif (contract-based deductive verification).
+// This file is comment-only; it is compiled only with -tags=verif.
+
+//@ import connectivity "google.golang.org/grpc/connectivity"
+
+// ---- C35: aggregated connectivity state --------------------------------------
+
+//@ spec func b2u(b bool) uint64 {
+//@   if b { return 1 }
+//@   return 0
+//@ }
+
+// precedence rule over the four counters
+//@ spec func aggregate(cse *ConnectivityStateEvaluator) connectivity.State {
+//@   if cse.numReady > 0 { return connectivity.Ready }
+//@   if cse.numConnecting > 0 { return connectivity.Connecting }
+//@   if cse.numIdle > 0 { return connectivity.Idle }
+//@   return connectivity.TransientFailure
+//@ }
+
+//@ func (*ConnectivityStateEvaluator).CurrentState
+//@   prop C35
+//@   nopanic
+//@   requires cse != nil
+//@   ensures result == aggregate(cse)
+
+// Each counter changes by [newState == X] - [oldState == X] (modulo 2^64: the
+// decrement is implemented as adding 2^64-1), nothing else changes, and the
+// result is the precedence rule applied to the new counters.
+//@ func (*ConnectivityStateEvaluator).RecordTransition
+//@   prop C35
+//@   nopanic
+//@   modifies cse.numReady, cse.numConnecting, cse.numTransientFailure, cse.numIdle
+//@   requires cse != nil
+//@   loop 1 invariant cse.numReady == old(cse.numReady) - b2u(rangeindex >= 0 && oldState == connectivity.Ready) + b2u(rangeindex >= 1 && newState == connectivity.Ready)
+//@   loop 1 invariant cse.numConnecting == old(cse.numConnecting) - b2u(rangeindex >= 0 && oldState == connectivity.Connecting) + b2u(rangeindex >= 1 && newState == connectivity.Connecting)
+//@   loop 1 invariant cse.numTransientFailure == old(cse.numTransientFailure) - b2u(rangeindex >= 0 && oldState == connectivity.TransientFailure) + b2u(rangeindex >= 1 && newState == connectivity.TransientFailure)
+//@   loop 1 invariant cse.numIdle == old(cse.numIdle) - b2u(rangeindex >= 0 && oldState == connectivity.Idle) + b2u(rangeindex >= 1 && newState == connectivity.Idle)
+//@   ensures cse.numReady == old(cse.numReady) - b2u(oldState == connectivity.Ready) + b2u(newState == connectivity.Ready)
+//@   ensures cse.numConnecting == old(cse.numConnecting) - b2u(oldState == connectivity.Connecting) + b2u(newState == connectivity.Connecting)
+//@   ensures cse.numTransientFailure == old(cse.numTransientFailure) - b2u(oldState == connectivity.TransientFailure) + b2u(newState == connectivity.TransientFailure)
+//@   ensures cse.numIdle == old(cse.numIdle) - b2u(oldState == connectivity.Idle) + b2u(newState == connectivity.Idle)
+//@   ensures result == aggregate(cse)
